@@ -10,7 +10,6 @@ use ndarray::{ArrayD, IxDyn};
 use routee_compass_core::model::unit::as_f64::AsF64;
 use routee_compass_core::model::unit::{EnergyRateUnit, Grade, GradeUnit, Speed, SpeedUnit};
 use routee_compass_powertrain::routee::prediction::interpolation::interp::{Interp1D, Interp2D, Interp3D, InterpND, Interpolator, Strategy};
-use routee_compass_powertrain::routee::prediction::interpolation::utils::linspace;
 use routee_compass_powertrain::routee::prediction::model_type::ModelType;
 use routee_compass_powertrain::routee::prediction::{load_prediction_model, PredictionModelRecord};
 use serde_json::json;
@@ -25,6 +24,17 @@ pub const MODELS: [(&str, EnergyRateUnit); 4] = [
 
 pub fn model_path(name: &str) -> PathBuf {
     PathBuf::from("/repo/rust/routee-compass-powertrain/src/routee/test").join(name)
+}
+
+/// the configured grid: `n` equally spaced points from `lo` to `hi`, the step accumulated point by point. computed here,
+/// not by the code under test: the grid the model tabulates must be the one that was configured
+fn own_linspace(lo: f64, hi: f64, n: usize) -> Vec<f64> {
+    let dx = (hi - lo) / ((n - 1) as f64);
+    let mut x = vec![lo; n];
+    for i in 1..n {
+        x[i] = x[i - 1] + dx;
+    }
+    x
 }
 
 fn underlying(name: &str, eru: EnergyRateUnit, msu: SpeedUnit, mgu: GradeUnit) -> Result<PredictionModelRecord, String> {
@@ -77,8 +87,8 @@ fn grid_case(rng: &mut Rng, rep: &mut Report, npoints: usize) {
         }
     };
     // the grid axes (definition of the grid) and the underlying values at the grid points
-    let xs = linspace(s_lo, s_hi, s_bins);
-    let ys = linspace(g_lo, g_hi, g_bins);
+    let xs = own_linspace(s_lo, s_hi, s_bins);
+    let ys = own_linspace(g_lo, g_hi, g_bins);
     let mut vals = vec![vec![0.0; g_bins]; s_bins];
     for (i, x) in xs.iter().enumerate() {
         for (j, y) in ys.iter().enumerate() {
@@ -419,7 +429,7 @@ pub fn run(tier: Tier, seed: u64) -> MonOut {
         report: rep,
         rule: "(i) InterpolationSpeedGradeModel over the four bundled random-forest models x grids (speed bounds {0,5,10}..{60,80,100} mph, grade bounds +-{0.05,0.1,0.2}, 2..41 x 2..21 bins) x query points (interior, grid points, grid lines, upper corner, +-2 ulp around grid lines, outside in speed, outside in grade) given in any of the 3 x 3 speed/grade input units; the underlying model is evaluated by the harness at every grid point. (ii) Interp1D/2D/3D/ND on random non-uniform grids (2..6 points per axis, dimension 1..4) with multilinear (60 %) or random data, points interior / on grid points / on the upper boundary / outside. non-trivial = the surrounding corner values differ (i) resp. every generic point (ii); distinct by (model, grid, point, units)".into(),
         assumptions: vec![
-            "the grid axes are taken from the repo's own linspace (the definition of the grid); the underlying smartcore model evaluated at a point is ground truth".into(),
+            "the configured grid is n equally spaced points from the lower to the upper bound, computed by the harness itself (accumulating the step, as the documented construction does); the underlying smartcore model evaluated at a point is ground truth".into(),
             "the cell of a point is located in model units after the repo's own unit conversion (C09 covers the conversions); points on a grid line use the corners of both adjacent cells".into(),
             "continuity bound: |f(x-d)-f(x+d)| <= 4 d (max corner spread of the two cells) / (cell width)".into(),
         ],
